@@ -83,6 +83,9 @@ type handled struct {
 	Dest     string
 	Value    any
 	Group    string
+	Replace  string  // offer: id of the stream being replaced
+	Label    string  // offer: label of the stream
+	Request  any     // request / requestStream: the request as received
 	Username *string // as claimed in the message
 	Before   rtpconn.VerifClientState
 	After    rtpconn.VerifClientState
@@ -159,6 +162,7 @@ type confWorld struct {
 	onHandled   func(h *handled) // oracle hook at Exit of handleClientMessage
 	onEnter     func(h *handled) // oracle hook at Enter of handleClientMessage
 	memEv       []srvMemEvent    // server-side membership changes (AddClient / DelClient probes)
+	addInFlight map[string]int   // client id -> AddClient calls in progress (the username is installed before the call returns)
 	onAction    func(c *simClient, st rtpconn.VerifClientState, typ string, desc string, enter bool)
 	onClientMsg func(sc *simClient, rm recvMsg)
 	panics      int
@@ -182,7 +186,7 @@ func confProcessSetup() {
 
 func newConfWorld(c *Ctx) *confWorld {
 	confProcessSetup()
-	w := &confWorld{c: c, vfs: c.Run.FS(), byAddr: map[string]*simClient{}, inflight: map[string]*handled{}, addEnter: map[string]int64{}, delEnter: map[string]srvMemEvent{}}
+	w := &confWorld{c: c, vfs: c.Run.FS(), byAddr: map[string]*simClient{}, inflight: map[string]*handled{}, addEnter: map[string]int64{}, delEnter: map[string]srvMemEvent{}, addInFlight: map[string]int{}}
 	webserver.VerifSetStaticRoot(staticDir)
 	w.mux = webserver.VerifConfMux()
 	w.vfs.Put("/sim/data/config.json", []byte(`{"writableGroups": true, "users": {"root": {"password": "rootpw", "permissions": "admin"}}}`))
@@ -210,7 +214,7 @@ func (w *confWorld) installProbes() {
 			}
 			h := &handled{Enter: w.c.Stamp(), At: time.Now(), StepsIn: r.Steps, Before: wc.VerifState()}
 			h.Type, h.Kind, h.Id, _, h.Dest, h.Username, h.Value = m.VerifFields()
-			h.Group, _, _, _, _ = m.VerifMore()
+			h.Group, h.Replace, h.Label, h.Request, _ = m.VerifMore()
 			if a := wc.Addr(); a != nil {
 				h.Addr = a.String()
 				h.Client = w.byAddr[h.Addr]
@@ -244,8 +248,10 @@ func (w *confWorld) installProbes() {
 		t := simrt.CurrentTaskID()
 		if enter {
 			w.addEnter[t] = w.c.Stamp()
+			w.addInFlight[cl.Id()]++
 			return
 		}
+		w.addInFlight[cl.Id()]--
 		ok := false
 		if g := group.Get(name); g != nil {
 			snap := g.VerifSnapshot()
